@@ -86,7 +86,7 @@ Record(rws, i, t, st) == IF i < NT /\ RLe(tp[i + 1], t) THEN Record(Append(rws, 
 \* TLC integers are 32 bit and TLC stops on overflow; a run whose selection grid would need more
 \* than MaxCells cells is abandoned (not emitted) instead of stopping the whole generation
 MaxCells == 400
-Small == Cells(A) <= MaxCells
+Small == SmallGrid(A, MaxCells)
 Abandon == /\ pc = "run" /\ Mode = "sim" /\ idx < NT /\ ~Small /\ pc' = "abandoned"
            /\ UNCHANGED <<prog, safe, tp, x0, x, now, idx, rows, fired, evlog, steps, tau>>
 
